@@ -134,6 +134,9 @@ def build_pool(rng, size=270):
               Literal(_dt.date(2006, 1, 1)), Literal(_dt.time(10, 0)), Literal(_dt.time(10, 0, tzinfo=_dt.timezone.utc)),
               Literal(_dt.timedelta(days=1)), Literal(True),
               Variable("??x"), Variable("?"),
+              Literal("hola", lang="es-419"), Literal("hola", lang="es"), Literal("a", lang="de-CH-1996"), Literal("a", lang="de-CH"),
+              Literal("1", datatype=XSD.boolean), Literal("0", datatype=XSD.boolean), Literal("true", datatype=XSD.boolean),
+              Literal("false", datatype=XSD.boolean), Literal(-1), Literal(2), Literal(Decimal("0.5")), Literal(0.5),
               Literal("a", datatype=URIRef("http://e/dt")), Literal("b", datatype=URIRef("http://e/dt")),
               Literal("a", datatype=URIRef("http://e/dt2")), Literal("1", datatype=URIRef("http://e/dt")),
               empty_lang_literal("a"), empty_lang_literal("b"),
@@ -312,6 +315,13 @@ class Laws(Suite):
 
     def gen(self, rng, i):
         pool = self.pools.get(rng)
+        if rng.random() < 0.08:
+            # booleans next to numbers (bool is a subclass of int in Python: they must not be compared by value)
+            mix = [["L", "true", XSDP + "boolean", None], ["L", "false", XSDP + "boolean", None], ["L", "1", XSDP + "boolean", None],
+                   ["L", "0", XSDP + "boolean", None], ["L", "0", XSDP + "integer", None], ["L", "1", XSDP + "integer", None],
+                   ["L", "-1", XSDP + "integer", None], ["L", "2", XSDP + "integer", None], ["L", "0.5", XSDP + "decimal", None],
+                   ["L", "0.5", XSDP + "double", None], ["L", "1.0", XSDP + "double", None], ["L", "a", None, None]]
+            return self.make_case(rng.sample(mix, rng.choice([3, 4, 5])))
         if rng.random() < 0.3:
             # a cluster: 3-5 literals of one datatype family (half of the time a date/time family)
             fams = {}
@@ -581,7 +591,7 @@ class Text(Suite):
                 n = rng.choice([1, 2, 2, 3, 3, 4, 5, 6])
                 s = "".join(rng.choice(ALPHA) for _ in range(n))
                 r = rng.random()
-                j = (["L", s, None, None] if r < 0.6 else ["L", s, None, rng.choice(["en", "EN", "en-GB"])] if r < 0.75
+                j = (["L", s, None, None] if r < 0.6 else ["L", s, None, rng.choice(["en", "EN", "en-GB", "es-419", "de-CH-1996"])] if r < 0.75
                      else ["L", s, XSDP + "string", None] if r < 0.85 else ["L", s, "http://e/dt", None] if r < 0.93
                      else ["B", s])
                 j = tj(mk(j))
@@ -830,7 +840,8 @@ ASSUMPTIONS = [
     "is supplied as an oracle (normalisation is the subject of C09); the model decides only where it is used; 'the same term' for "
     "text read back by from_n3 / Turtle is the literal that default constructor builds (the term itself unless built with normalize=False)",
     "rdflib.DAWG_LITERAL_COLLATION is False and rdflib.NORMALIZE_LITERALS is True (defaults; reflected into Gen/Tables_term.v)",
-    "ordering (<, >, <=, >=) of two literals is modelled for plain/xsd:string/language-tagged and [+-]?[0-9]+ xsd:integer literals; "
+    "ordering (<, >, <=, >=) of two literals is modelled for plain/xsd:string/language-tagged, [+-]?[0-9]+ xsd:integer and "
+    "true/false/1/0 xsd:boolean literals; "
     "for all other pairs of literals (dates, times, durations, decimals, doubles, NaN, ill-typed, custom datatypes) the order is "
     "checked by laws only: < and > never raise, inside one datatype < is irreflexive/asymmetric/transitive, sorted() is "
     "reproducible, ties are Literal.eq",
